@@ -8,6 +8,7 @@ package refcount
 //	site 1: RefCount.resolve after the resolver returned, before mtx is taken (obj: the nonce)
 //	site 2: the asynchronous path of released(), before mtx is taken (obj: the nonce)
 //	site 3: RefCount.removeRef, before mtx is taken (obj: the *Ref)
+//	site 4: RefCount.resolve is returning (deferred; runs before its done channel is closed) (obj: the nonce)
 var VerifHook func(site int, obj any)
 
 func verifPoint(site int, obj any) {
